@@ -13,6 +13,14 @@ CLAIMED = {
    technique="stateless model checking of the implementation: exhaustive delay-bounded DFS over schedules and environment events of closed lifecycle scenarios (controlled scheduler, instrumented real code)",
    text="Every interleaving, up to the stated delay bound, of {serving call, 1-2 Shutdown calls, 0-2 client connections of 5 kinds, second Bind/Listen, context cancel, late client, second round} is executed on the real Service code (sync, go, select and field accesses rewritten to run under a controlled scheduler; controlled listener/connection) and judged in its quiescent final state: serving returned if a Shutdown was issued while bound; nil when Shutdown found it blocked in Accept; no late client accepted; count 0 / no listener / not running / all accepted connections closed at return; listener closed; refused second bind changes nothing. A serving call parked forever is a stable state of the explored system, not a timeout.",
    note="Trusts vnet's model of net.Listener/net.Conn and that scheduling points at sync/channel/select/field-access/vnet operations are sufficient; bounded by the scenario alphabet and the delay bound reported in the evidence."),
+ "C15": dict(engine=A, design="§3 C15",
+   technique="stateless model checking of the implementation: exhaustive delay-bounded DFS over schedules with accept-deadline expiries injected as timer-thread events by a controlled listener",
+   text="Every interleaving, up to the delay bound, of {serving call via Listen and via DoListen with/without idle timeout, 0-2 client connections of 6 kinds, 1-3 accept-deadline expiries, optional Shutdown, optional second round} runs on the real code. For every accept time-out the oracle compares what the loop did next (re-arm = keeps serving, close/return = stops) with the state of the accepted connections: a connection open from before the expiry until the loop acted forbids stopping; no open or pending connection and no live handler forces stopping with exactly ServiceTimeoutError; every Accept is preceded by a fresh SetDeadline; without timeout no deadline is ever armed and the service never stops by itself; after a time-out return the listener is closed, the state is clean and a second round serves.",
+   note="Time is the timer thread's events: the value given to SetDeadline is not interpreted. An expired deadline makes Accept fail even when a connection is queued (as Go's netpoller does); that case is classed unspecified. Trusts vnet and the scheduling-point set as for C14."),
+ "C16": dict(engine=A, design="§3 C16",
+   technique="exhaustive delay-bounded schedule exploration of the implementation with an exact vector-clock happens-before race monitor on instrumented field accesses",
+   text="Every pair and triple of {Shutdown, GetListener, RegisterInterface(new), RegisterInterface(duplicate)} is issued from separate threads after the serving call (Listen and DoListen, with and without idle timeout) has been entered, together with 0-3 client connections; all interleavings up to the delay bound are executed on the real code, every field access of Service/ctxio.Conn state is a scheduling point and an event of a vector-clock monitor; a violation is a pair of conflicting accesses unordered by happens-before in some explored schedule. No sampling: the claim is 'no explored schedule contains an HB-race on instrumented state'.",
+   note="Sees only instrumented accesses (fields of structs declared in varlink/ctxio that are written after construction, pointer-field method calls such as the bufio.Reader, package variables); trusts the listed happens-before edges to be complete for sync.Mutex/WaitGroup, buffered channels, context, net.Conn. Go's own race detector is not used to decide."),
 }
 
 NOT_YET = "check not built yet (work in progress; see DESIGN.md for the plan)"
